@@ -111,6 +111,11 @@ func writeJSON(path string, v interface{}) {
 
 func parent(ck *checks.Check, tier string, seed int64, verif, scratch string) int {
 	start := time.Now()
+	if old, _ := filepath.Glob(filepath.Join(verif, "replays", ck.ID+"-*.json")); len(old) > 0 {
+		for _, f := range old {
+			os.Remove(f) // replay files describe the run that wrote them
+		}
+	}
 	units := ck.Units(tier)
 	n := runtime.NumCPU()
 	if ck.Serial {
